@@ -201,7 +201,7 @@ func VerifTraceReader(isRequest, client bool, headers http.Header, inner *VerifS
 		switch a {
 		case "r":
 			for i := range buf {
-				buf[i] = 0xEE
+				buf[i] = 0 // stale bytes beyond n must never be looked at
 			}
 			n, err := rd.Read(buf)
 			out.Seen = append(out.Seen, VerifStep{fmt.Sprintf("%x", buf[:n]), VerifErrClass(err)})
@@ -250,4 +250,235 @@ func VerifSortedKeys(h http.Header) []string {
 	}
 	sort.Strings(keys)
 	return keys
+}
+
+// ---------------------------------------------------------------- middleware sessions
+
+// VerifHAction is one step of a scripted handler / caller.
+type VerifHAction struct {
+	Kind   string `json:"k"`           // read | closeReq | wh | w | flush | set | panic
+	Data   string `json:"d,omitempty"` // hex, for w
+	Status int    `json:"s,omitempty"` // for wh
+	Key    string `json:"key,omitempty"`
+	Val    string `json:"val,omitempty"`
+}
+
+// verifRW is a scripted http.ResponseWriter: it accepts `accept` bytes in total (-1: all),
+// then fails with a short write.
+type verifRW struct {
+	h       http.Header
+	status  int
+	snap    []string
+	written []byte
+	accept  int
+	flushes int
+	wrote   bool
+}
+
+func verifDumpHeader(h http.Header) []string {
+	out := []string{}
+	for _, k := range VerifSortedKeys(h) {
+		out = append(out, k+"="+strings.Join(h[k], ","))
+	}
+	return out
+}
+
+func (w *verifRW) Header() http.Header { return w.h }
+func (w *verifRW) WriteHeader(code int) {
+	if w.wrote {
+		return
+	}
+	w.wrote = true
+	w.status = code
+	w.snap = verifDumpHeader(w.h)
+}
+func (w *verifRW) Write(p []byte) (int, error) {
+	if !w.wrote {
+		w.WriteHeader(http.StatusOK)
+	}
+	if w.accept >= 0 && len(w.written)+len(p) > w.accept {
+		n := w.accept - len(w.written)
+		w.written = append(w.written, p[:n]...)
+		return n, VerifErrInner
+	}
+	w.written = append(w.written, p...)
+	return len(p), nil
+}
+func (w *verifRW) Flush() { w.flushes++ }
+
+// VerifHandlerOut is what one server-side session produced.
+type VerifHandlerOut struct {
+	Events      []string    `json:"events"`
+	Completions int         `json:"completions"`
+	Saw         []string    `json:"saw"`   // what the handler got back from each action
+	Inner       []VerifStep `json:"inner"` // what the scripted request body returned
+	Status      int         `json:"status"`
+	HeaderAtWH  []string    `json:"headerAtWH"`
+	Written     string      `json:"written"`
+	FinalHeader []string    `json:"finalHeader"`
+	Flushes     int         `json:"flushes"`
+	Panicked    bool        `json:"panicked"`
+}
+
+// VerifServeHandler runs a scripted handler against a scripted ResponseWriter and request body,
+// through the real TracingHandler when traced, directly otherwise.
+func VerifServeHandler(traced bool, reqHeaders http.Header, body *VerifScriptReader, actions []VerifHAction, accept int) VerifHandlerOut {
+	var out VerifHandlerOut
+	coll := &VerifCollector{}
+	rw := &verifRW{h: http.Header{}, accept: accept}
+	req := verifRequest(reqHeaders)
+	req.Body = body
+	handler := http.HandlerFunc(func(w http.ResponseWriter, r *http.Request) {
+		buf := make([]byte, 1<<12)
+		for _, a := range actions {
+			switch a.Kind {
+			case "read":
+				n, err := r.Body.Read(buf)
+				out.Saw = append(out.Saw, fmt.Sprintf("r:%x:%s", buf[:n], VerifErrClass(err)))
+			case "closeReq":
+				out.Saw = append(out.Saw, "c:"+VerifErrClass(r.Body.Close()))
+			case "wh":
+				w.WriteHeader(a.Status)
+			case "w":
+				data, _ := hexDecode(a.Data)
+				n, err := w.Write(data)
+				out.Saw = append(out.Saw, fmt.Sprintf("w:%d:%s", n, VerifErrClass(err)))
+			case "flush":
+				if f, ok := w.(http.Flusher); ok {
+					f.Flush()
+				}
+			case "set":
+				w.Header().Set(a.Key, a.Val)
+			case "panic":
+				panic("verif: scripted panic")
+			}
+		}
+	})
+	func() {
+		defer func() {
+			if r := recover(); r != nil {
+				out.Panicked = true
+			}
+		}()
+		if traced {
+			TracingHandler(handler, coll).ServeHTTP(rw, req)
+		} else {
+			handler.ServeHTTP(rw, req)
+		}
+		// what net/http's server does when a handler returns without having written anything
+		if !rw.wrote {
+			rw.WriteHeader(http.StatusOK)
+		}
+	}()
+	out.Completions = coll.Count()
+	out.Events = []string{}
+	if len(coll.Traces) > 0 {
+		out.Events = VerifBodyEvents(coll.Traces[0])
+	}
+	if out.Saw == nil {
+		out.Saw = []string{}
+	}
+	out.Inner = body.Log
+	if out.Inner == nil {
+		out.Inner = []VerifStep{}
+	}
+	out.Status, out.HeaderAtWH, out.Written = rw.status, rw.snap, fmt.Sprintf("%x", rw.written)
+	if out.HeaderAtWH == nil {
+		out.HeaderAtWH = []string{}
+	}
+	out.FinalHeader = verifDumpHeader(rw.h)
+	out.Flushes = rw.flushes
+	return out
+}
+
+func hexDecode(s string) ([]byte, error) {
+	out := make([]byte, len(s)/2)
+	for i := range out {
+		var b byte
+		_, err := fmt.Sscanf(s[2*i:2*i+2], "%02x", &b)
+		if err != nil {
+			return nil, err
+		}
+		out[i] = b
+	}
+	return out, nil
+}
+
+// VerifRoundTripOut is what one client-side session produced.
+type VerifRoundTripOut struct {
+	Events       []string    `json:"events"`
+	Completions  int         `json:"completions"`
+	TransportSaw []VerifStep `json:"transportSaw"` // what the transport read from the request body
+	ReqInner     []VerifStep `json:"reqInner"`     // what the scripted request body returned
+	CallerSaw    []VerifStep `json:"callerSaw"`    // what the caller read from the response body
+	RespInner    []VerifStep `json:"respInner"`
+	Err          string      `json:"err"`        // class of RoundTrip's error
+	SameErr      bool        `json:"sameErr"`    // the caller got the transport's own error value
+	Status       int         `json:"status"`     // status the caller saw
+	RespHeader   []string    `json:"respHeader"` // response headers the caller saw
+	ReqCloses    int         `json:"reqCloses"`
+	CloseSeen    []string    `json:"closeSeen"`
+}
+
+// VerifRoundTrip drives the real TracingRoundTripper over a fake transport that reads the
+// request body to its end (then closes it) and answers with a scripted response or an error.
+func VerifRoundTrip(reqHeaders http.Header, reqBody *VerifScriptReader, fail bool, status int, respHeaders http.Header, respBody *VerifScriptReader, actions []string) VerifRoundTripOut {
+	var out VerifRoundTripOut
+	coll := &VerifCollector{}
+	transport := roundTripperFunc(func(req *http.Request) (*http.Response, error) {
+		buf := make([]byte, 1<<12)
+		for {
+			n, err := req.Body.Read(buf)
+			out.TransportSaw = append(out.TransportSaw, VerifStep{fmt.Sprintf("%x", buf[:n]), VerifErrClass(err)})
+			if err != nil {
+				break
+			}
+		}
+		req.Body.Close()
+		if fail {
+			return nil, VerifErrInner
+		}
+		return &http.Response{
+			Status: fmt.Sprintf("%d x", status), StatusCode: status, Proto: "HTTP/1.1", ProtoMajor: 1, ProtoMinor: 1,
+			Header: respHeaders, Body: respBody, ContentLength: -1, Request: req,
+		}, nil
+	})
+	req := verifRequest(reqHeaders)
+	req.Body = reqBody
+	resp, err := TracingRoundTripper(transport, coll).RoundTrip(req)
+	out.Err = VerifErrClass(err)
+	out.SameErr = err == nil || err == VerifErrInner //nolint:errorlint // identity is the point
+	out.RespHeader = []string{}
+	if resp != nil {
+		out.Status = resp.StatusCode
+		out.RespHeader = verifDumpHeader(resp.Header)
+		buf := make([]byte, 1<<12)
+		for _, a := range actions {
+			switch a {
+			case "r":
+				n, err := resp.Body.Read(buf)
+				out.CallerSaw = append(out.CallerSaw, VerifStep{fmt.Sprintf("%x", buf[:n]), VerifErrClass(err)})
+			case "c":
+				out.CloseSeen = append(out.CloseSeen, VerifErrClass(resp.Body.Close()))
+			}
+		}
+	}
+	out.Completions = coll.Count()
+	out.Events = []string{}
+	if len(coll.Traces) > 0 {
+		out.Events = VerifBodyEvents(coll.Traces[0])
+	}
+	out.ReqInner, out.ReqCloses = reqBody.Log, reqBody.Closes
+	if respBody != nil {
+		out.RespInner = respBody.Log
+	}
+	for _, p := range []*[]VerifStep{&out.TransportSaw, &out.ReqInner, &out.CallerSaw, &out.RespInner} {
+		if *p == nil {
+			*p = []VerifStep{}
+		}
+	}
+	if out.CloseSeen == nil {
+		out.CloseSeen = []string{}
+	}
+	return out
 }
